@@ -183,6 +183,12 @@ func (s *Scheduler) run(now time.Time) {
 	})
 	for _, e := range entries {
 		t := e.Next
+		if t.IsZero() {
+			// The schedule has no activation within the cron library's search
+			// horizon (e.g. "0 0 30 2 *"): Next returns the zero time, which must
+			// not be mistaken for a time that is due.
+			continue
+		}
 		if t.After(now) {
 			break
 		}
